@@ -10,6 +10,7 @@ Rules (DESIGN.md section 3, C19):
   CTX-WRITERS      protocol fields of the context written only by the protocol
   NO-SHARED-STATE  no writable file-scope/static state besides the context pointer (thread-local under MULTI)
   INSTALL-MUST     (c19_install.py) every normal return of a parameter setter passed the installation sequence
+  INIT-RESET       (c19_order.py) every ->X_id identifier a selection stores is also stored on the way from core_init
   SET-ORDER        (c19_order.py) a setter stores a context field before calling anything that (transitively) reads it
   HIST-FREE        (c19_hist.py) no context field is updated from its own old value before the same call assigned it
 """
@@ -726,6 +727,7 @@ def selfcheck(ctx, prog, chk):
     from . import c19_hist, c19_order
     c19_hist.analyse(ctx, prog, chk)
     c19_order.analyse(ctx, prog, chk)
+    c19_order.rule_init_reset(ctx, prog, chk)
 
 
 def run(ctx, chk):
@@ -747,6 +749,8 @@ def run(ctx, chk):
     c19_hist.run(ctx, chk)
     no = c19_order.analyse(ctx, ctx.program("BASE"), chk)
     chk.floor("SET-ORDER", "calls in setters that read a field stored later", no, 5)
+    ni = c19_order.rule_init_reset(ctx, ctx.program("BASE"), chk)
+    chk.floor("INIT-RESET", "identifier fields of the context", ni, 4)
     if chk.tier == "thorough":
         for cfg in ("P255", "P381"):
             p = ctx.program(cfg)
